@@ -63,6 +63,9 @@ of `Model/Reactive.lean` (the model and its theorems are untouched):
   changes nothing).  Only `sig` / `memo` / `memoc` / `memoh` may be defined inside a scope; scopes do not nest.
 * `disposew <id>` — a fresh `Signal::from(node)` wrapper is created and disposed: a wrapper is a handle, not the
   node; nothing changes.
+* `onclr <sig>` — the cleanup callbacks read a signal: a cleanup is not the body, nobody is subscribed: `ok`.
+* `setun <id> <v>` — `update_untracked` / `write_untracked` followed by an explicit `notify()`: the model's `set`.
+* `wrap 6` — `Signal<Option<T>>::from(Signal<T>)`: transparent like the other wrappers.
 * `oncl` — every effect run registers one `on_cleanup`; C02 lines then end in ` cl=<node>:<calls>,…` = for every effect,
   one call per run of this op that superseded an earlier run, plus one when it is disposed after having run.
 * `imeff <expr>` — `ImmediateEffect::new`: no task; the real effect runs inside the notification that reaches it.
@@ -483,6 +486,20 @@ def stepLine (m : Mode) (d : DState) (line : String) : DState × String :=
         (d, afterOp m d none)
       else (d, "bad-op")
     | none => (d, "bad-op")
+  | ["onclr", sg] =>
+    match sg.toNat? with
+    | some sg =>
+      match d.prog[sg]? with
+      | some (.sig _) => if d.keys.contains sg || d.fields.contains sg then (d, "bad-op") else (d, "ok")
+      | _ => (d, "bad-op")
+    | none => (d, "bad-op")
+  | ["setun", id, v] =>
+    match id.toNat?, parseInt v with
+    | some id, some v =>
+      match (if d.keys.contains id || d.fields.contains id then none else d.prog[id]?) with
+      | some (.sig _) => doSet m d id v
+      | _ => (d, "bad-op")
+    | _, _ => (d, "bad-op")
   | ["sset", id, v] =>
     match id.toNat?, parseInt v with
     | some id, some v =>
